@@ -17,7 +17,8 @@ use qbase::{
 #[derive(Debug)]
 struct RawDatagramWriter {
     /// The queue that stores the datagram frame to send.
-    datagrams: VecDeque<Bytes>,
+    // (datagram, peer's max_datagram_frame_size it was admitted under)
+    datagrams: VecDeque<(Bytes, usize)>,
     tx_wakers: ArcSendWakers,
 }
 
@@ -70,7 +71,7 @@ impl DatagramOutgoing {
         let Ok(writer) = guard.as_mut() else {
             return None;
         };
-        let datagram = writer.datagrams.front()?;
+        let (datagram, _) = writer.datagrams.front()?;
         let available = buf.remaining_mut();
 
         let max_encoding_size = available.saturating_sub(datagram.len());
@@ -78,13 +79,15 @@ impl DatagramOutgoing {
             return None;
         }
 
-        let data = writer.datagrams.pop_front().expect("unreachable");
+        let (data, limit) = writer.datagrams.pop_front().expect("unreachable");
         let data_len = VarInt::try_from(data.len()).unwrap();
         let frame_without_len = DatagramFrame::new(false, data_len);
         let frame_with_len = DatagramFrame::new(true, data_len);
         let frame = match max_encoding_size {
             // Encode length
-            n if n >= frame_with_len.encoding_size() => {
+            n if n >= frame_with_len.encoding_size()
+                && frame_with_len.encoding_size() + data.len() <= limit =>
+            {
                 buf.put_data_frame(&frame_with_len, &data);
                 frame_with_len
             }
@@ -130,7 +133,7 @@ impl DatagramOutgoing {
         let Ok(writer) = guard.as_mut() else {
             return Err(Signals::empty()); // connection closed
         };
-        let Some(datagram) = writer.datagrams.front() else {
+        let Some((datagram, _)) = writer.datagrams.front() else {
             return Err(Signals::TRANSPORT);
         };
 
@@ -141,13 +144,15 @@ impl DatagramOutgoing {
             return Err(Signals::CONGESTION);
         }
 
-        let data = writer.datagrams.pop_front().expect("unreachable");
+        let (data, limit) = writer.datagrams.pop_front().expect("unreachable");
         let data_len = VarInt::try_from(data.len()).unwrap();
         let frame_without_len = DatagramFrame::new(false, data_len);
         let frame_with_len = DatagramFrame::new(true, data_len);
         match max_encoding_size {
-            // Encode length
-            n if n >= frame_with_len.encoding_size() => {
+            // Encode length, unless the frame would then exceed the peer's max_datagram_frame_size
+            n if n >= frame_with_len.encoding_size()
+                && frame_with_len.encoding_size() + data.len() <= limit =>
+            {
                 (frame_with_len, data).dump(packet).unwrap();
             }
             // Do not encode length, may need padding
@@ -222,7 +227,7 @@ impl DatagramWriter {
                     ));
                 }
                 writer.tx_wakers.wake_all_by(Signals::TRANSPORT);
-                writer.datagrams.push_back(data.clone());
+                writer.datagrams.push_back((data.clone(), self.max_datagram_frame_size));
                 Ok(())
             }
             Err(e) => Err(io::Error::from(e.clone())),
